@@ -11,7 +11,7 @@
    op_nojar excludes only SetCookieJar without a factory (the documented shared jar);
    op_api excludes appending to the wrapper lists behind WrapRoundTrip's back (no API does). *)
 From Coq Require Import List Arith Bool.
-From ReqV Require Import Model.Settings Model.ReExec Model.LiveSel Model.Handshake Gen.CloneTable Proofs.SettingsHeap Proofs.SettingsValue Proofs.SettingsSim Proofs.ReExecProofs Proofs.C19Top.
+From ReqV Require Import Model.Settings Model.ReExec Model.LiveSel Model.Handshake Model.PoolKey Model.DumpCtx Gen.CloneTable Proofs.SettingsHeap Proofs.SettingsValue Proofs.SettingsSim Proofs.ReExecProofs Proofs.PoolKeyProofs Proofs.C19Top.
 Import ListNotations.
 
 (* the Clone code, as read from the source by gosync, deep-copies every reference the model tracks,
@@ -200,6 +200,36 @@ Theorem C19_stale_fingerprint_hook_refuted :
   hs_fn s = HCustom 7 /\ hs_fn (hclone t s) = HFinger 1.
 Proof. exact stale_hook_refuted. Qed.
 Print Assumptions C19_stale_fingerprint_hook_refuted.
+
+(* ---------- the proxy setting changed after use: HTTP/1.1 pool key (Model/PoolKey.v) ---------- *)
+Theorem C19_pool_key_as_modelled : gen_key = good_key.
+Proof. reflexivity. Qed.
+Print Assumptions C19_pool_key_as_modelled.
+
+(* for EVERY history of proxy settings (host, user, password, none) and requests of a client: the next request
+   announces the credentials of the client's CURRENT proxy setting, whatever connections earlier settings left
+   in the pool *)
+Theorem C19_proxy_setting_governs_pooled_connections : forall h,
+  snd (preq gen_key (fold_left pstep1 h pclient0)) = pauth (pc_cur (fold_left pstep1 h pclient0)).
+Proof. exact proxy_setting_governs. Qed.
+Print Assumptions C19_proxy_setting_governs_pooled_connections.
+
+Theorem C19_redacted_pool_key_refuted :
+  let t := {| k_pw_in_key := false |} in
+  let c1 := fst (preq t {| pc_cur := {| ps_host := 1; ps_user := 1; ps_pw := 1 |}; pc_idle := [] |}) in
+  snd (preq t {| pc_cur := {| ps_host := 1; ps_user := 1; ps_pw := 2 |}; pc_idle := pc_idle c1 |}) = (1, 1).
+Proof. exact redacted_key_refuted. Qed.
+Print Assumptions C19_redacted_pool_key_refuted.
+
+(* ---------- request-level dump and inherited contexts (Model/DumpCtx.v) ---------- *)
+(* a request that enables its own dump is dumped by its own dumper, whatever context it inherited *)
+Theorem C19_own_request_dump_governs : forall inherited own, deffective (denable gen_dump inherited own) = own.
+Proof. exact own_dump_governs. Qed.
+Print Assumptions C19_own_request_dump_governs.
+
+Theorem C19_early_return_dump_refuted : deffective (denable {| d_always_pushes := false |} [7] 3) = 7.
+Proof. exact early_return_dump_refuted. Qed.
+Print Assumptions C19_early_return_dump_refuted.
 
 Example C19_nonvacuous :
   Forall op_api witness /\ Forall op_nojar witness /\
